@@ -116,9 +116,15 @@ static Verdict runPrefixes(const K &k) {
 }
 
 // ---------------------------------------------------------------------- sink
-struct Sink { Bytes data; size_t budget; bool failed = false; int mode = 0; };   // mode 0: fail with -1/0; 1: short write then fail
+struct Sink { Bytes data; size_t budget; bool failed = false; int mode = 0; long calls = 0, fail_call = -1; };   // mode 0: fail with -1/0; 1: short write then fail; 2: transient - only write call `fail_call` fails (short), later calls succeed again
 static ssize_t sink_write(void *c, const char *buf, size_t n) {
   Sink *s = (Sink *)c;
+  if (s->mode == 2) {
+    long me = s->calls++;
+    if (me == s->fail_call) { s->failed = true; size_t part = n / 2; s->data.insert(s->data.end(), buf, buf + part); if (part == 0) errno = EIO; return (ssize_t)part; }   // short write ...
+    if (me == s->fail_call + 1 && s->failed) { errno = EIO; return 0; }   // ... and the retry of the remainder fails; everything later succeeds again
+    s->data.insert(s->data.end(), buf, buf + n); return (ssize_t)n;
+  }
   size_t room = s->budget > s->data.size() ? s->budget - s->data.size() : 0;
   if (n <= room) { s->data.insert(s->data.end(), buf, buf + n); return (ssize_t)n; }
   s->failed = true;
@@ -156,6 +162,28 @@ static Verdict runSink(const K &k) {
         PBT_CHECK(vd, sk.data == good, "sink received %zu bytes that differ from the fault-free file of %zu bytes", sk.data.size(), len);
       }
     }
+  // a transient failure: exactly one write call of the sink comes up short, the sink works again afterwards.  Either some
+  // writer call reports it, or everything did reach the sink after all ("OK from close implies all bytes reached the sink")
+  for (int buf = 0; buf < 3; buf++) {
+    long ncalls = 0;
+    { Sink sk; sk.budget = 0; sk.mode = 2; cookie_io_functions_t io = {nullptr, sink_write, nullptr, nullptr}; FILE *fp = fopencookie(&sk, "wb", io); if (!fp) break;
+      if (buf == 0) setvbuf(fp, nullptr, _IONBF, 0); else if (buf == 1) setvbuf(fp, nullptr, _IOLBF, 256);
+      cw::WriteCtl ctl; ctl.sink = fp; cw::runHistory(k.w, lv, ctl); fclose(fp); ncalls = sk.calls; }
+    long step = ncalls > 40 ? ncalls / 40 : 1;
+    for (long fc = 0; fc < ncalls; fc += step) {
+      evals++;
+      Sink sk; sk.budget = 0; sk.mode = 2; sk.fail_call = fc;
+      cookie_io_functions_t io = {nullptr, sink_write, nullptr, nullptr};
+      FILE *fp = fopencookie(&sk, "wb", io);
+      PBT_CHECK(vd, fp != nullptr, "fopencookie failed");
+      if (buf == 0) setvbuf(fp, nullptr, _IONBF, 0); else if (buf == 1) setvbuf(fp, nullptr, _IOLBF, 256);
+      cw::WriteCtl ctl; ctl.sink = fp;
+      cw::runHistory(k.w, lv, ctl);
+      fclose(fp);
+      if (!sk.failed) continue;
+      PBT_CHECK(vd, ctl.any_nonok || sk.data == good, "write call %ld of %ld of the sink came up short once (%s); every writer call including carquet_writer_close returned OK, but the sink holds %zu bytes that differ from the %zu-byte file", fc, ncalls, buf == 0 ? "unbuffered" : buf == 1 ? "line buffered" : "fully buffered", sk.data.size(), len);
+    }
+  }
   vd.evals = std::max<long>(1, evals); vd.nontrivial = nt;
   if (len <= 1500) vd.label("every_byte_budget");
   return vd;
